@@ -20,14 +20,16 @@ Init == a \in Lo..Hi /\ b \in Lo..Hi
 Next == UNCHANGED <<a, b>>
 
 Forms == {<<l, t>> : l \in BOOLEAN, t \in BOOLEAN}
-Sp == SetToSeq(Spellings(a, b))
 NthS2(f, raw) == [k |-> "nth", a |-> a, b |-> b, last |-> f[1], oftype |-> f[2], of |-> <<>>, raw |-> raw]
-Entries == [n \in 1..Len(Sp) |-> NthS2(<<FALSE, FALSE>>, Sp[n])]
-          \o <<NthS2(<<TRUE, FALSE>>, Sp[1]), NthS2(<<FALSE, TRUE>>, Sp[1]), NthS2(<<TRUE, TRUE>>, Sp[Len(Sp)])>>
-PoolOf == [n \in 1..Len(Entries) |-> <<[cs |-> <<<<Entries[n]>>>>, cb |-> <<>>]>>]
-Res == [n \in 1..Len(Entries) |->
-          MaskUpTo({i \in Elems(RowDoc) : Matches(RowDoc, NoEnv, PoolOf[n], i)}, Row + 1)]
-Emit == PrintT(ToJson([doc |-> RowDoc, pool |-> PoolOf, res |-> Res]))
+\* (state-level definitions are re-evaluated at every reference: bind the spelling sequence once with LET)
+Emit == LET sp == SetToSeq(Spellings(a, b))
+            entries == [n \in 1..Len(sp) |-> NthS2(<<FALSE, FALSE>>, sp[n])]
+                       \o <<NthS2(<<TRUE, FALSE>>, sp[1]), NthS2(<<FALSE, TRUE>>, sp[1]), NthS2(<<TRUE, TRUE>>, sp[Len(sp)])>>
+            poolOf == [n \in 1..Len(entries) |-> <<[cs |-> <<<<entries[n]>>>>, cb |-> <<>>]>>]
+            \* all spellings of (a, b) mean the same: evaluate the relation once per form
+            rel(l, t) == MaskUpTo({i \in Elems(RowDoc) : Matches(RowDoc, NoEnv, <<[cs |-> <<<<NthS2(<<l, t>>, <<>>)>>>>, cb |-> <<>>]>>, i)}, Row + 1)
+            res == [n \in 1..Len(entries) |-> rel(entries[n].last, entries[n].oftype)]
+        IN PrintT(ToJson([doc |-> RowDoc, pool |-> poolOf, res |-> res]))
 
 NthClosed == \A pos \in 1..(Row + 2) : NthOk(a, b, pos) <=> NthExists(a, b, pos)
 NthSpelling == \A s \in Spellings(a, b) : ParseNth(s) = <<a, b>>
